@@ -13,6 +13,8 @@ from fractions import Fraction
 
 import numpy as np
 
+from pwlib.share import shcopy
+
 from pwlib import gens
 from pwlib.canon import counted, counted_ints, flat
 from pwlib.engine import Case
@@ -229,14 +231,14 @@ def dedupe(out):
 
 def polyline(v, closed):
     from polliwog import Polyline
-    return Polyline(np.array(v, dtype=np.float64).reshape(-1, 3), is_closed=closed)
+    return Polyline(np.array(np.reshape(v, (-1, 3)), dtype=np.float64), is_closed=closed)
 
 
 def pl_line(op, v, closed, *flags):
     ln = Line(op)
     for f in flags:
         ln.b(f)
-    return ln.b(closed).vecs(np.array(v, dtype=np.float64).reshape(-1, 3))
+    return ln.b(closed).vecs(np.array(np.reshape(v, (-1, 3)), dtype=np.float64))
 
 
 def canon_polyline(q):
@@ -284,7 +286,7 @@ def make_group(spec):
     v = spec["v"]
     closed = bool(spec["closed"])
     stream = spec["stream"]
-    V = np.array(v, dtype=np.float64).reshape(-1, 3)
+    V = np.array(np.reshape(v, (-1, 3)), dtype=np.float64)
     pl = polyline(v, closed)
     ref = Ref(v, closed)
     nE = len(ref.segs)
@@ -310,7 +312,7 @@ def make_group(spec):
             fa = np.array(fs, dtype=np.float64)
 
             def impl_stack(fa=fa):
-                r = np.asarray(polyline(v, closed).point_along_path(fa.copy()))
+                r = np.asarray(polyline(v, closed).point_along_path(shcopy(fa)))
                 if r.shape != (len(fa), 3):
                     raise RuntimeError("bad shape %s" % (r.shape,))
                 return counted(r)
@@ -333,11 +335,11 @@ def make_group(spec):
         for bad in ([-0.25], [1.5], [0.5, 1.0000000000000002], [-1e-300, 0.5]):
             fa = np.array(bad, dtype=np.float64)
             add("pl.along", Line("pl.along").b(False).b(closed).vecs(V).i(len(fa)).f(*fa),
-                lambda fa=fa: counted(polyline(v, closed).point_along_path(fa.copy())), sub="/out-of-range")
+                lambda fa=fa: counted(polyline(v, closed).point_along_path(shcopy(fa))), sub="/out-of-range")
     else:
         fa = np.array([0.5])
         add("pl.along", Line("pl.along").b(False).b(closed).vecs(V).i(1).f(0.5),
-            lambda: counted(polyline(v, closed).point_along_path(fa.copy())), sub="/no-segment")
+            lambda: counted(polyline(v, closed).point_along_path(shcopy(fa))), sub="/no-segment")
 
     # --- subdivided_by_length
     lens_f = [float(l) for l in ref.lens]
@@ -472,7 +474,7 @@ def oracle_along(v, closed, ref, fa, scale, single=False):
     if single:
         got = np.asarray(p.point_along_path(float(fa[0]))).reshape(1, 3)
     else:
-        got = np.asarray(p.point_along_path(fa.copy()))
+        got = np.asarray(p.point_along_path(shcopy(fa)))
     first = ref.v[0]
     end = ref.segs[-1][1]
     for f, g in zip(fa, got):
@@ -652,9 +654,9 @@ def make_subseg(spec):
 
             def impl(arg=arg, endpoint=endpoint):
                 if endpoint is None:
-                    r_ = subdivide_segment(P1.copy(), P2.copy(), arg)
+                    r_ = subdivide_segment(shcopy(P1), shcopy(P2), arg)
                 else:
-                    r_ = subdivide_segment(P1.copy(), P2.copy(), arg, endpoint=endpoint)
+                    r_ = subdivide_segment(shcopy(P1), shcopy(P2), arg, endpoint=endpoint)
                 r_ = np.asarray(r_)
                 if r_.ndim != 2 or r_.shape[1] != 3:
                     raise RuntimeError("bad shape %s" % (r_.shape,))
@@ -675,7 +677,7 @@ def oracle_subseg(P1, P2, n, endpoint, ep, scale):
     from polliwog.segment import subdivide_segment
     out = []
     tol = Fraction(1e-9) * Fraction(scale)
-    r = subdivide_segment(P1.copy(), P2.copy(), n) if endpoint is None else subdivide_segment(P1.copy(), P2.copy(), n, endpoint=endpoint)
+    r = subdivide_segment(shcopy(P1), shcopy(P2), n) if endpoint is None else subdivide_segment(shcopy(P1), shcopy(P2), n, endpoint=endpoint)
     r = np.asarray(r)
     if r.shape != (n, 3):
         return [("subdivide_segment/count", "returned shape %s for num_points=%d" % (r.shape, n))]
@@ -696,7 +698,7 @@ def oracle_subseg_err(P1, P2, arg, is_int):
     from polliwog.segment import subdivide_segment
     want = ValueError if is_int else TypeError
     try:
-        subdivide_segment(P1.copy(), P2.copy(), arg)
+        subdivide_segment(shcopy(P1), shcopy(P2), arg)
     except want:
         return []
     except Exception as e:  # noqa: BLE001
@@ -719,13 +721,13 @@ def make_subsegs(spec):
             v.append(list(v[-1]))
         else:
             v.append(gen_point(rng, stream, s))
-    V = np.array(v, dtype=np.float64).reshape(-1, 3)
+    V = np.array(np.reshape(v, (-1, 3)), dtype=np.float64)
     scale = max(gens.maxabs(V), 1e-300)
     n = rng.choice([0, 1, 2, 3, 5, 5, 7]) if rng.random() < 0.8 else None
     rep = any(v[i] == v[i + 1] for i in range(len(v) - 1))
 
     def impl():
-        r = subdivide_segments(V.copy()) if n is None else subdivide_segments(V.copy(), n)
+        r = subdivide_segments(shcopy(V)) if n is None else subdivide_segments(shcopy(V), n)
         r = np.asarray(r)
         if r.ndim != 2 or r.shape[1] != 3:
             raise RuntimeError("bad shape %s" % (r.shape,))
@@ -742,7 +744,7 @@ def make_subsegs(spec):
                               mode="both", scale=scale, trivial=True, klass="seg.subdivides/%s/bad-shape-%s" % (stream, bad)))
         E0 = np.zeros((0, 3))
         cases.append(Case(spec, Line("seg.subdivides").b(True).i(nn).vecs(E0),
-                          lambda: counted(np.asarray(subdivide_segments(E0.copy(), nn)).reshape(-1, 3)),
+                          lambda: counted(np.asarray(subdivide_segments(shcopy(E0), nn)).reshape(-1, 3)),
                           mode="both", scale=1.0, trivial=True, klass="seg.subdivides/%s/no-points" % stream))
     return cases
 
@@ -752,7 +754,7 @@ def oracle_subsegs(V, n, nn, scale):
     from polliwog.segment import subdivide_segments
     out = []
     tol = Fraction(1e-9) * Fraction(scale)
-    r = np.asarray(subdivide_segments(V.copy()) if n is None else subdivide_segments(V.copy(), n))
+    r = np.asarray(subdivide_segments(shcopy(V)) if n is None else subdivide_segments(shcopy(V), n))
     E = len(V) - 1
     if r.shape != (E * nn + 1, 3):
         return [("subdivide_segments/count", "returned shape %s for %d segments x %d" % (r.shape, E, nn))]
@@ -791,7 +793,7 @@ def make_segcentroid(spec):
         else:
             b = gen_point(rng, stream, s) if rng.random() < 0.85 else list(a)
         segs.append([a, b])
-    S = np.array(segs, dtype=np.float64).reshape(-1, 2, 3)
+    S = np.array(np.reshape(segs, (-1, 2, 3)), dtype=np.float64)
     scale = max(gens.maxabs(S), 1e-300)
     lens = [elen(a, b) for a, b in segs]
     total = sum(lens, Fraction(0))
@@ -800,10 +802,10 @@ def make_segcentroid(spec):
     def oracle(_r):
         if total == 0:
             return []
-        c = np.asarray(path_centroid(S.copy()))
+        c = np.asarray(path_centroid(shcopy(S)))
         want = [sum(l * (F(a[j]) + F(b[j])) / 2 for (a, b), l in zip(segs, lens)) / total for j in range(3)]
         if c.shape != (3,) or not vclose(c, want, Fraction(4e-9) * Fraction(scale)):
             return [("centroid/weighted-mean", "path_centroid=%s, length-weighted mean of midpoints %s" % (c.tolist(), [float(x) for x in want]))]
         return []
-    return Case(spec, ln, lambda: flat(np.asarray(path_centroid(S.copy())).reshape(3)), mode="both", scale=scale,
+    return Case(spec, ln, lambda: flat(np.asarray(path_centroid(shcopy(S))).reshape(3)), mode="both", scale=scale,
                 trivial=total == 0, klass="seg.centroid/%s/%s" % (stream, "zero" if total == 0 else "k%d" % min(k, 3)), oracle=oracle)
